@@ -439,8 +439,11 @@ def run_resubmit(S, case):
                 fails.append(f"after resubmission the results hold more than one entry for {dup}")
             if sorted(per_name) != sorted(ns):
                 fails.append(f"after resubmission the results hold entries for {sorted(per_name)}, configured jobs {sorted(ns)}")
+            # "preserved": same name, return code, status and times - as values (pruning rewrites the file through csv.DictWriter, which may
+            # print 0 as 0.0 and an absent HPC job id as an empty field)
+            val = lambda r: (r["name"], int(r["return_code"]), r["status"], float(r["exec_time_s"]), float(r["completion_time"]))
             for x in ns:
-                if x not in want and x in rows0 and per_name.get(x) and per_name[x][0] != rows0[x]:
+                if x not in want and x in rows0 and per_name.get(x) and val(per_name[x][0]) != val(rows0[x]):
                     fails.append(f"result of {x} (not rerun) changed: {rows0[x]} -> {per_name[x][0]}")
         return {"pre_ok": True, "ok": not fails, "failed": fails[:4]}
     finally:
